@@ -377,9 +377,10 @@ def check_connect(walk, d, c, view):
         if kv_get(kv, key) != kv_get(ckv, key):
             out.append(("connect-content", f"{key} differs from the configured value", c.open_step))
     cid = kv_get(ckv, "cid")
-    if cid is not None and kv_get(kv, "cid") != cid:
+    if cid is not None and cid != "x" and kv_get(kv, "cid") != cid:
         out.append(("connect-content", "client id differs from the configured one", c.open_step))
-    if cid is None:
+    if cid is None or cid == "x":
+        # (an empty client id asks the server to assign one, just like none at all)
         # a server-assigned id is reused on later connections
         assigned = None
         for x in d["conns"]:
@@ -388,6 +389,8 @@ def check_connect(walk, d, c, view):
                     assigned = x.connack["caps"]["acid"]
         if assigned is not None and kv_get(kv, "cid") != hexs(assigned):
             out.append(("client-id-reuse", "server-assigned client id not reused on a later connection", c.open_step))
+        if assigned is None and kv_get(kv, "cid", "x") != "x":
+            out.append(("connect-content", "a client id is sent although none is configured and none has been assigned", c.open_step))
     if walk.v5:
         expect = {"P17": kv_get(ckv, "sei"), "P33": kv_get(ckv, "rm"), "P34": kv_get(ckv, "tam"), "P39": kv_get(ckv, "mps")}
         for k, v in expect.items():
